@@ -66,8 +66,11 @@ class BaseTcpTunnelHandler(BaseTcpServerHandler[TcpClientConnection]):
     async def get_events(self) -> SelectableEvents:
         # Get default client events
         ev: SelectableEvents = await super().get_events()
-        # Read from server if we are connected
-        if self.upstream and self.upstream._conn is not None:
+        # Read from server if we are connected.  Once the server has closed
+        # and we are only flushing pending buffer to the client, there is
+        # nothing more to read.
+        if self.upstream and self.upstream._conn is not None and \
+                not self.must_flush_before_shutdown:
             ev[self.upstream.connection.fileno()] = selectors.EVENT_READ
         # If there is pending buffer for server
         # also register for EVENT_WRITE events
@@ -93,7 +96,13 @@ class BaseTcpTunnelHandler(BaseTcpServerHandler[TcpClientConnection]):
             if data is None:
                 # Server closed connection
                 logger.debug('Connection closed by server')
-                return True
+                if not self.work.has_buffer():
+                    return True
+                # Data received from the server before it closed is still
+                # pending for the client.  Flush it before shutting down,
+                # BaseTcpServerHandler tears down once the buffer is empty.
+                self.must_flush_before_shutdown = True
+                return False
             # tunnel data to client
             self.work.queue(data)
         if self.upstream and self.upstream.connection.fileno() in writables:
